@@ -171,3 +171,222 @@ Print Assumptions C12_no_unadjusted_resolution.
 Print Assumptions C12_minimum_contribution_partial.
 Print Assumptions C12_minimum_contribution_refuted.
 Print Assumptions C12_compressible_cap_adjusted.
+
+(* ---------------------------------------------------------------------------------------------------------------- *)
+(* WHOLE TREES through the engine skeleton (Model/Engine.v).
+
+   BoxSizingBlind (Model/EngineRel.v): the algorithm reads box_sizing / size / min_size / max_size (/ flex_basis) of a node --
+   its own and every child's it is given -- only through the adjusted view: on a node and child styles of which ANY eligible
+   ones are rewritten (bsrel ok tb elig: the same node, or an eligible node rewritten by `tb`), and on inputs equal as
+   numbers (EI), the two resumptions run in lockstep -- same child addressed, queries equal up to EI, stored layouts up to EL,
+   results up to EO, given answers equal up to EO.  Then, for ANY subset of the eligible nodes rewritten (two trees related by
+   `trel (bsrel ..)`: the same shape, each node unchanged or rewritten; cache entries and stored layouts equal as numbers,
+   e.g. both trees fresh), every evaluation returns equal outputs and leaves equal stored layouts at every node.
+   EI / EO / EL are parameters (for the instance: "equal as numbers, field by field"). *)
+From TV Require Model.Engine Model.EngineRel Proofs.EngineRelProofs.
+From TV Require Gen.BlockGen Model.Block Model.ScaleBase Model.ScaleBlock Model.BlockAlg Model.BlockEngine Model.BlockEngineRel Model.BlockEngineExample.
+From TV Require Proofs.ScaleKit Proofs.BlockAlgRel Proofs.EngineHomog Proofs.EngineBoxSizing Proofs.EngineExamples.
+
+Section EngineLevel.
+  Import TV.Model.Engine TV.Model.EngineRel TV.Proofs.EngineRelProofs.
+
+  Theorem C12_engine :
+    forall (S In Out Lay : Type) (mode : In -> RunMode) (in_eqb : In -> In -> bool) (is_none : S -> bool) (hidden_out : Out)
+           (zero_lay : Lay) (algo : S -> list S -> In -> Alg In Out Lay)
+           (ok : S -> Prop) (tb : S -> S) (elig : S -> Prop)
+           (EI : In -> In -> Prop) (EO : Out -> Out -> Prop) (EL : Lay -> Lay -> Prop),
+      (forall i i', EI i i' -> mode i' = mode i) ->
+      (forall s, ok s -> elig s -> is_none (tb s) = is_none s) ->
+      EO hidden_out hidden_out -> EL zero_lay zero_lay ->
+      (forall i1 i1' i2 i2', EI i1 i1' -> EI i2 i2' -> in_eqb i1' i2' = in_eqb i1 i2) ->
+      BoxSizingBlind S In Out Lay ok tb elig EI EO EL algo ->
+      forall f t t' i i', trel S In Out Lay (bsrel ok tb elig) EI EO EL t t' -> EI i i' ->
+        oprel (res_rel S In Out Lay (bsrel ok tb elig) EI EO EL)
+              (memo S In Out Lay mode in_eqb is_none hidden_out zero_lay algo f t i)
+              (memo S In Out Lay mode in_eqb is_none hidden_out zero_lay algo f t' i').
+  Proof.
+    intros S In Out Lay mode in_eqb is_none hidden_out zero_lay algo ok tb elig EI EO EL Hm Hn Hh Hz Hk HA f t t' i i' Ht Hi.
+    apply (memo_rel S In Out Lay mode in_eqb is_none hidden_out zero_lay algo algo (bsrel ok tb elig) EI EO EL Hm); try assumption.
+    intros s s' [Hok [->|[El ->]]]; [reflexivity|apply Hn; assumption].
+  Qed.
+
+  (* fresh trees, every subset: the nodes at the paths selected by `w` are rewritten by `g` (the total version of the
+     rewrite: `tb` on eligible nodes, the identity elsewhere); equal root outputs, equal stored layouts at every node *)
+  Theorem C12_engine_fresh :
+    forall (S In Out Lay : Type) (mode : In -> RunMode) (in_eqb : In -> In -> bool) (is_none : S -> bool) (hidden_out : Out)
+           (zero_lay : Lay) (algo : S -> list S -> In -> Alg In Out Lay)
+           (ok : S -> Prop) (tb : S -> S) (elig : S -> Prop) (g : S -> S)
+           (EI : In -> In -> Prop) (EO : Out -> Out -> Prop) (EL : Lay -> Lay -> Prop),
+      (forall i i', EI i i' -> mode i' = mode i) ->
+      (forall s, ok s -> elig s -> is_none (tb s) = is_none s) ->
+      EO hidden_out hidden_out -> EL zero_lay zero_lay ->
+      (forall i1 i1' i2 i2', EI i1 i1' -> EI i2 i2' -> in_eqb i1' i2' = in_eqb i1 i2) ->
+      (forall s, ok s -> g s = s \/ (elig s /\ g s = tb s)) ->
+      BoxSizingBlind S In Out Lay ok tb elig EI EO EL algo ->
+      forall f (k : sk S) (w : list nat -> bool) i i' o t1, sk_all S ok k -> EI i i' ->
+        memo S In Out Lay mode in_eqb is_none hidden_out zero_lay algo f (fresh S In Out Lay zero_lay k) i = Some (o, t1) ->
+        exists o' t1',
+          memo S In Out Lay mode in_eqb is_none hidden_out zero_lay algo f
+               (fresh S In Out Lay zero_lay (sk_map_where S g w k)) i' = Some (o', t1') /\
+          EO o o' /\ Forall2 EL (lays S In Out Lay t1) (lays S In Out Lay t1').
+  Proof.
+    intros S In Out Lay mode in_eqb is_none hidden_out zero_lay algo ok tb elig g EI EO EL Hm Hn Hh Hz Hk Hg HA f k w i i' o t1 Hall Hi E.
+    assert (Hkk : skrel S (bsrel ok tb elig) k (sk_map_where S g w k)).
+    { apply (skrel_map_where S (bsrel ok tb elig) g ok); [|  |exact Hall].
+      - intros s Hs. split; [exact Hs|left; reflexivity].
+      - intros s Hs. split; [exact Hs|]. destruct (Hg s Hs) as [->|[El ->]]; [left; reflexivity|right; split; [exact El|reflexivity]]. }
+    assert (Hn' : forall s s', bsrel ok tb elig s s' -> is_none s' = is_none s).
+    { intros s s' [Hok [->|[El ->]]]; [reflexivity|apply Hn; assumption]. }
+    pose proof (memo_fresh_rel S In Out Lay mode in_eqb is_none hidden_out zero_lay algo algo (bsrel ok tb elig) EI EO EL
+                               Hm Hn' Hh Hz Hk HA f k _ i i' Hkk Hi) as H.
+    rewrite E in H. unfold oprel in H.
+    destruct (memo S In Out Lay mode in_eqb is_none hidden_out zero_lay algo f
+                   (fresh S In Out Lay zero_lay (sk_map_where S g w k)) i') as [[o' t1']|]; [|contradiction].
+    destruct H as [Ho Ht]. cbn [fst snd] in Ho, Ht. exists o', t1'. split; [reflexivity|]. split; [exact Ho|].
+    apply (trel_lays S In Out Lay (bsrel ok tb elig) EI EO EL). exact Ht.
+  Qed.
+End EngineLevel.
+
+(* ---------------------------------------------------------------------------------------------------------------- *)
+(* Engines of BLOCK CONTAINERS AND LEAVES (Model/BlockEngine.v): no premise on the algorithms.
+
+   The rewrite on a block style (b_to_border_box / b_eligibleb: Model/BlockEngine.v) is the rewrite of Model/BoxSizing.v seen
+   through the adapter (C12_block_rewrite_is_leaf_rewrite).  "Equal as numbers" = the relations of C04 at scale factor 1:
+   sc 1 a a' <-> xeq a' a (C12_rel1_is_xeq).  The block resumption (Model/BlockAlg.v) resolves size / min_size / max_size at two
+   sites, both with the adjustment: compute_block_layout / compute_inner for the container itself (Model/Block.v
+   block_resolve) and generate_item_list for every child (generate_item) -- C12_block_resolutions_blind is the Gallina form of
+   those entries of the generated site table.  Nodes must carry measure functions that do not distinguish equal rationals
+   (the premise of C12_leaf).  Parameters of the resumption as in C04: proved for all `pre` / `abs_child` satisfying PreRel /
+   AbsChildRel at the relation bb_rel, discharged for block_pre and abs_child_simple; the real absolute-item routine
+   (C12_abs_block is about its style resolution) is not plugged in.  Flex and grid containers: BoxSizingBlind stays a premise
+   (and fails for grid in the known-finding class, C12_minimum_contribution_refuted). *)
+Section BlockTrees.
+  Import TV.Gen.BlockGen TV.Model.Block TV.Model.ScaleBase TV.Model.ScaleBlock TV.Proofs.ScaleKit.
+  Import TV.Model.Engine TV.Model.EngineRel TV.Proofs.EngineRelProofs.
+  Import TV.Model.BlockAlg TV.Model.BlockEngine TV.Model.BlockEngineRel TV.Model.BlockEngineExample.
+  Import TV.Proofs.BlockAlgRel TV.Proofs.EngineHomog TV.Proofs.EngineBoxSizing TV.Proofs.EngineExamples.
+
+  Theorem C12_rel1_is_xeq : forall a a' : XQ, sc 1 a a' <-> xeq a' a.
+  Proof. exact sc1_iff. Qed.
+
+  (* the block-vocabulary rewrite is the rewrite C12_leaf is about, and its class is the eligible class *)
+  Theorem C12_block_rewrite_is_leaf_rewrite : forall s : BStyle XQ, b_eligibleb s = true ->
+    eligible (cv_style s) /\ cv_style (b_to_border_box s) = to_border_box (cv_style s).
+  Proof. intros s El. split; [apply cv_eligible; exact El|apply cv_to_border_box; exact El]. Qed.
+
+  (* the two resolutions of the block algorithm do not see the rewrite: the container's own size / min / max against its
+     parent size (block_resolve, used by compute_block_layout and compute_inner), and a child's against the container's inner
+     size (generate_item = one element of generate_item_list) -- on inputs / contexts equal as numbers *)
+  Theorem C12_block_resolutions_blind : forall s : BStyle XQ, b_eligibleb s = true ->
+    (forall inp inp', binput_rel 1 inp inp' -> bresolved_rel 1 (block_resolve s inp) (block_resolve (b_to_border_box s) inp')) /\
+    (forall nis nis' order, bsz_rel (op_rel (sc 1)) nis nis' ->
+       bitem_rel 1 (generate_item s nis order) (generate_item (b_to_border_box s) nis' order)).
+  Proof.
+    intros s El. pose proof (bb_weak_rewrite s El) as W.
+    destruct W as (_ & _ & _ & _ & _ & _ & _ & _ & _ & Wres & Witem). split; assumption.
+  Qed.
+
+  (* the leaf behind the adapter: C12_leaf, for inputs that are only equal as numbers *)
+  Theorem C12_engine_leaf : forall (s : BStyle XQ) m i i', measure_respects_xeq m -> b_eligibleb s = true -> bin_rel 1 i i' ->
+    bout_rel 1 (leaf_out s m i) (leaf_out (b_to_border_box s) m i').
+  Proof. intros s m i i' Hm El Hi. apply leaf_out_bb; [exact Hm|right; split; [exact El|reflexivity]|exact Hi]. Qed.
+
+  (* the block resumption, any parameters *)
+  Theorem C12_block_algorithm_box_sizing_blind :
+    forall (pre : BStyle XQ -> BIn XQ -> BIn XQ) (abs_child : @AbsChild XQ),
+      PreRel 1 bb_rel pre -> AbsChildRel 1 bb_rel abs_child ->
+      forall st st' children children' inp inp',
+        bb_rel st st' -> Forall2 bb_rel children children' -> bin_rel 1 inp inp' ->
+        AlgRel (BIn XQ) (ChildOut XQ) (BLayout XQ) (bin_rel 1) (bout_rel 1) (blay_rel 1)
+               (block_alg pre abs_child st children inp) (block_alg pre abs_child st' children' inp').
+  Proof. intros pre abs_child Hpre Habs st st' children children' inp inp'. apply (block_alg_rel 1 Q01 bb_rel bb_weak); assumption. Qed.
+
+  Theorem C12_block_parameters_box_sizing_blind : PreRel 1 bb_rel block_pre /\ AbsChildRel 1 bb_rel (abs_child_simple (T := XQ)).
+  Proof. split; [apply (block_pre_rel 1 Q01 bb_rel bb_weak)|apply (abs_child_simple_rel 1 Q01)]. Qed.
+
+  (* the engine's algorithm is box-sizing blind: no premise *)
+  Theorem C12_block_engine_box_sizing_blind :
+    BoxSizingBlind (BNode XQ) (BIn XQ) (ChildOut XQ) (BLayout XQ) bn_ok bn_tb bn_elig (bin_rel 1) (bout_rel 1) (blay_rel 1)
+                   (bl_algo block_pre abs_child_simple).
+  Proof. exact bl_algo_box_sizing_blind_inst. Qed.
+
+  (* hence: two trees that differ by rewriting any subset of the eligible nodes (and whose cache entries and stored layouts
+     are equal as numbers, e.g. both fresh), inputs equal as numbers, the same fuel: both evaluations fail or both return,
+     with equal outputs and equal trees *)
+  Theorem C12_block_engine_instance :
+    forall f t t' i i',
+      trel (BNode XQ) (BIn XQ) (ChildOut XQ) (BLayout XQ) bnode_bb (bin_rel 1) (bout_rel 1) (blay_rel 1) t t' -> bin_rel 1 i i' ->
+      oprel (res_rel (BNode XQ) (BIn XQ) (ChildOut XQ) (BLayout XQ) bnode_bb (bin_rel 1) (bout_rel 1) (blay_rel 1))
+            (bl_memo block_pre abs_child_simple f t i) (bl_memo block_pre abs_child_simple f t' i').
+  Proof.
+    apply block_engine_box_sizing; [apply (block_pre_rel 1 Q01 bb_rel bb_weak)|apply (abs_child_simple_rel 1 Q01)].
+  Qed.
+
+  (* every subset of the eligible nodes of a fresh tree: the nodes at the paths selected by `w` are rewritten when eligible
+     (bn_to_border_box); the SAME input; the stored layouts of all nodes and the root output are equal as numbers *)
+  Theorem C12_block_engine_rewritten_layouts :
+    forall f (t : sk (BNode XQ)) (w : list nat -> bool) i o t1,
+      sk_all (BNode XQ) bn_ok t ->
+      bl_memo block_pre abs_child_simple f (bl_fresh t) i = Some (o, t1) ->
+      exists o' t1',
+        bl_memo block_pre abs_child_simple f (bl_fresh (sk_map_where (BNode XQ) bn_to_border_box w t)) i = Some (o', t1') /\
+        bout_rel 1 o o' /\
+        Forall2 (blay_rel 1) (lays (BNode XQ) (BIn XQ) (ChildOut XQ) (BLayout XQ) t1) (lays (BNode XQ) (BIn XQ) (ChildOut XQ) (BLayout XQ) t1').
+  Proof.
+    intros f t w i o t1 Hall E.
+    pose proof (C12_block_engine_instance f (bl_fresh t) (bl_fresh (sk_map_where (BNode XQ) bn_to_border_box w t)) i i
+                  (bl_fresh_bb _ _ (rewrite_where_bb t w Hall)) (bin_rel1_refl i)) as H.
+    rewrite E in H. unfold oprel in H.
+    destruct (bl_memo block_pre abs_child_simple f (bl_fresh (sk_map_where (BNode XQ) bn_to_border_box w t)) i) as [[o' t1']|]; [|contradiction].
+    destruct H as [Ho Ht1]. cbn [fst snd] in Ho, Ht1. exists o', t1'. split; [reflexivity|]. split; [exact Ho|].
+    apply (trel_lays (BNode XQ) (BIn XQ) (ChildOut XQ) (BLayout XQ) bnode_bb (bin_rel 1) (bout_rel 1) (blay_rel 1)). exact Ht1.
+  Qed.
+
+  (* non-vacuity on the tree of Model/BlockEngineExample.v: its measure functions respect xeq; rewriting ALL eligible nodes
+     (root, A, B, C, G; D is display:none and eligible too; E, F are border-box), only the root, or only the nodes below the
+     root really changes the styles (root: width 200 content-box -> 212 border-box) and changes no stored layout *)
+  Definition ex_all (p : list nat) : bool := true.
+  Definition ex_root_only (p : list nat) : bool := match p with nil => true | _ => false end.
+  Definition ex_below_root (p : list nat) : bool := match p with nil => false | _ => true end.
+  Definition ex_rewrite (w : list nat -> bool) (t : sk (BNode XQ)) : sk (BNode XQ) := sk_map_where (BNode XQ) bn_to_border_box w t.
+  Example C12_block_engine_example :
+    sk_all (BNode XQ) bn_ok ex_tree /\ sk_all (BNode XQ) bn_ok ex_subtree /\
+    (let s := bn_style (sstyle (BNode XQ) (ex_rewrite ex_root_only ex_tree)) in
+     st_content_box s = false /\ st_size s = mkSize (Len (Fin 212)) Auto) /\
+    ex_root_size ex_tree ex_input 212 102 = true /\
+    ex_same_ok ex_tree (ex_rewrite ex_all ex_tree) ex_input = true /\
+    ex_same_ok ex_tree (ex_rewrite ex_root_only ex_tree) ex_input = true /\
+    ex_same_ok ex_tree (ex_rewrite ex_below_root ex_tree) ex_input = true /\
+    (* the container B alone under max-content (content-based width through measuring queries), children rewritten *)
+    ex_root_size ex_subtree ex_input_max 60 44 = true /\
+    ex_same_ok ex_subtree (ex_rewrite ex_all ex_subtree) ex_input_max = true /\
+    ex_same_ok ex_subtree (ex_rewrite ex_below_root ex_subtree) ex_input_max = true.
+  Proof.
+    split; [apply ex_all_ok|]. split; [apply ex_all_ok|]. split; [vm_compute; split; reflexivity|].
+    repeat split; vm_compute; reflexivity.
+  Qed.
+
+  (* the same for ANY preprocessing and absolute-item routine satisfying the two premises *)
+  Theorem C12_block_engine_instance_parametric :
+    forall (pre : BStyle XQ -> BIn XQ -> BIn XQ) (abs_child : @AbsChild XQ),
+      PreRel 1 bb_rel pre -> AbsChildRel 1 bb_rel abs_child ->
+      forall f t t' i i',
+        trel (BNode XQ) (BIn XQ) (ChildOut XQ) (BLayout XQ) bnode_bb (bin_rel 1) (bout_rel 1) (blay_rel 1) t t' -> bin_rel 1 i i' ->
+        oprel (res_rel (BNode XQ) (BIn XQ) (ChildOut XQ) (BLayout XQ) bnode_bb (bin_rel 1) (bout_rel 1) (blay_rel 1))
+              (bl_memo pre abs_child f t i) (bl_memo pre abs_child f t' i').
+  Proof. exact block_engine_box_sizing. Qed.
+End BlockTrees.
+
+Print Assumptions C12_engine.
+Print Assumptions C12_engine_fresh.
+Print Assumptions C12_rel1_is_xeq.
+Print Assumptions C12_block_rewrite_is_leaf_rewrite.
+Print Assumptions C12_block_resolutions_blind.
+Print Assumptions C12_engine_leaf.
+Print Assumptions C12_block_algorithm_box_sizing_blind.
+Print Assumptions C12_block_parameters_box_sizing_blind.
+Print Assumptions C12_block_engine_box_sizing_blind.
+Print Assumptions C12_block_engine_instance.
+Print Assumptions C12_block_engine_rewritten_layouts.
+Print Assumptions C12_block_engine_example.
+Print Assumptions C12_block_engine_instance_parametric.
